@@ -434,7 +434,15 @@ func c11Run(env *verifsim.Env, raw json.RawMessage) *verifsim.Violation {
 			}
 		case "delete":
 			_, _, opErr = coll.DeleteDoc(ctx, "d1", DocVersion{RevTreeID: d1rev})
+			deletedLeaf := d1rev
 			expectNew = func(post c11Snap) string {
+				if p.Prior == 1 {
+					// the document has a second live branch: deleting the winning leaf makes that branch current
+					if has(post["doc:d1"], `"rev":"`+deletedLeaf+`"`) {
+						return "the deleted leaf of d1 is still its current revision"
+					}
+					return ""
+				}
 				if !has(post["doc:d1"], `"deleted":true`) {
 					return "document d1 is not deleted"
 				}
@@ -712,6 +720,11 @@ func c11FaultedOps(s *verifsim.Sim) (desc []string, key string) {
 		if e.Task == "req" && e.Kind == "kv" && e.Alt != verifsim.Go {
 			desc = append(desc, fmt.Sprintf("%s(%s)=%s", e.Op, e.Class, e.Alt))
 			if key == "" {
+				key = e.Op + "/" + e.Class
+			}
+			// with several faults in one request a failed principal invalidation is the one that decides whether the
+			// grants follow the committed document (the recorded finding), whatever else failed before it
+			if e.Op == "SubdocInsert" && e.Alt == simstore.AltErr && !strings.HasPrefix(key, "SubdocInsert/") {
 				key = e.Op + "/" + e.Class
 			}
 		}
